@@ -972,6 +972,13 @@ func (w *rsWorld) runHealthBinary() string {
 		dir     string
 	}
 	var logs []lg
+	logs2 := func(l []lg) []hbLog {
+		var out []hbLog
+		for _, x := range l {
+			out = append(out, hbLog{x.name, x.staging, x.healthy})
+		}
+		return out
+	}
 	yaml := "logs:\n"
 	week := 7 * 24 * time.Hour
 	for i := 0; i < 2+r.Intn(3); i++ {
@@ -1012,11 +1019,75 @@ func (w *rsWorld) runHealthBinary() string {
 			w.sim.Probe("cases.broken")
 		}
 	}
+	// half of the runs also serve a witness with a mirror
+	wdir := ""
+	witOK, mirOK := true, true
+	var wsnap dirSnap
+	if r.Chance(1, 2) {
+		wdir = filepath.Join(w.tmp, "hbwit")
+		src := []*dirgen.SrcLog{dirgen.NewSrcLog("hbsrc.example/a", 600, seed)}
+		if _, err := dirgen.BuildWitness(wdir, w.tmp, src, []int64{int64(2 + r.Intn(500))}, true, nil); err != nil {
+			return "BuildWitness: " + err.Error()
+		}
+		wsnap = snapshotDir(wdir)
+		yaml += fmt.Sprintf("witnesses:\n  - monitoringprefix: https://hbwit.sim.test\n    localdirectory: %s\n", wdir)
+	}
 	srv, err := startSkylight(w.tmp, yaml)
 	if err != nil {
 		return err.Error()
 	}
 	defer srv.stop()
+	// the state changes under the running server: several requests to one process
+	for round := 0; round < 4; round++ {
+		if round > 0 {
+			var muts []string
+			if wdir != "" {
+				muts = append(muts, "wit-key-rotate", "mir-json-missing", "wit-restore")
+			}
+			for i := range logs {
+				if logs[i].healthy {
+					muts = append(muts, fmt.Sprintf("log-garbage-%d", i))
+				}
+			}
+			if len(muts) == 0 {
+				break
+			}
+			m := muts[r.Intn(len(muts))]
+			w.sim.Probe("health.live-change")
+			switch {
+			case m == "wit-key-rotate":
+				os.WriteFile(filepath.Join(wdir, "witness.v0.json"), []byte(`{"verifier_keys":["other.example/w+d9b2a7c3+AcD0Y+kCuMbdz4SQ0XH34CNnb7qLr3xJpZt0Gt4cEjm6"]}`), 0o644)
+				witOK, mirOK = false, false
+			case m == "mir-json-missing":
+				os.Remove(filepath.Join(wdir, "mirror", "mirror.v0.json"))
+				mirOK = false
+			case m == "wit-restore":
+				// in place: the server holds the directory open
+				for _, rel := range []string{"witness.v0.json", filepath.Join("mirror", "mirror.v0.json")} {
+					os.WriteFile(filepath.Join(wdir, rel), wsnap[rel], 0o644)
+				}
+				witOK, mirOK = true, true
+			default:
+				var i int
+				fmt.Sscanf(m, "log-garbage-%d", &i)
+				os.WriteFile(filepath.Join(logs[i].dir, "checkpoint"), []byte("garbage"), 0o644)
+				logs[i].healthy = false
+			}
+			w.sim.Logf("live change %s", m)
+		}
+		if msg := w.healthRound(srv, logs2(logs), witOK && mirOK); msg != "" {
+			return msg
+		}
+	}
+	return ""
+}
+
+type hbLog struct {
+	name             string
+	staging, healthy bool
+}
+
+func (w *rsWorld) healthRound(srv *server, logs []hbLog, witnessesOK bool) string {
 	req, _ := http.NewRequest("GET", "http://any.sim.test/health", nil)
 	req.Header.Set("User-Agent", "verifsim readsim (verif@sim.test)")
 	resp, err := srv.client().Do(req)
@@ -1025,7 +1096,7 @@ func (w *rsWorld) runHealthBinary() string {
 	}
 	defer resp.Body.Close()
 	body, _ := io.ReadAll(resp.Body)
-	wantBad := false
+	wantBad := !witnessesOK
 	for _, l := range logs {
 		if !l.healthy && !l.staging {
 			wantBad = true
@@ -1048,7 +1119,7 @@ func (w *rsWorld) runHealthBinary() string {
 		}
 	}
 	if wantBad != (resp.StatusCode != 200) {
-		w.v("health-status", "/health answered %d although broken non-staging logs = %v: %q", resp.StatusCode, wantBad, clipS(string(body)))
+		w.v("health-status", "/health answered %d although broken non-staging logs or witness/mirror = %v: %q", resp.StatusCode, wantBad, clipS(string(body)))
 	} else {
 		w.sim.Probe("health.aggregate.ok")
 	}
